@@ -69,16 +69,20 @@ struct SCase {
     AxisSpec axis;
     double lmin_f = 0.15;  // l_min / cell size
     uint64_t seed = 1;
+    double vt_f = 1.37;     // mother's target volume / its volume (compressed, relaxed or stretched mother)
+    double minvol_f = 0.0;  // the cell type's minimum volume / the mother's volume
     std::string shape;
     void write(vf::Writer& w) const {
         mg::write_mesh(w, mesh);
         w.i(axis.cls), w.d(axis.v[0]), w.d(axis.v[1]), w.d(axis.v[2]), w.u(axis.k), w.d(lmin_f), w.u(seed);
+        w.d(vt_f), w.d(minvol_f);
         w.nl();
     }
     static SCase read(vf::Reader& r) {
         SCase c;
         c.mesh = mg::read_mesh(r);
         c.axis.cls = (int)r.i(), c.axis.v[0] = r.d(), c.axis.v[1] = r.d(), c.axis.v[2] = r.d(), c.axis.k = (unsigned)r.u(), c.lmin_f = r.d(), c.seed = r.u();
+        if (r.more()) c.vt_f = r.d(), c.minvol_f = r.d();
         return c;
     }
 };
@@ -108,6 +112,10 @@ static rc::Gen<SCase> genS() {
         c.axis = *genAxis();
         c.lmin_f = *uniform(0.05, 0.3);
         c.seed = (uint64_t)*irange(1, 1 << 30);
+        // the statement: each daughter inherits half of the mother's target volume - whatever the pressure state of the mother and wherever
+        // the type's minimum volume lies (the removal threshold; a daughter below it is removed later by the solver, not by the division)
+        c.vt_f = *rc::gen::element(1.37, 1.37, 1.0, 0.8, 0.6, 2.5);
+        c.minvol_f = *rc::gen::element(0.0, 0.0, 1e-3, 0.2, 0.33, 0.45, 0.7);
         if (*irange(0, 7) == 0) {
             // the opposite corner: a mother that is coarse relative to l_min - a regular octahedron or icosahedron cut along a body diagonal,
             // through the midpoints of its edges, so that the daughters need no collapse at all (or the division fails cleanly)
@@ -225,7 +233,10 @@ static std::string runS(const SCase& k, vf::Ctx& ctx) {
     local_mesh_refiner lmr(lmin, lmax, true);
     m->forced_ = k.axis.cls != 4;
     m->axis_ = make_axis(k.axis, *m);
-    m->set_target_volume(m->get_volume() * 1.37);
+    type->min_vol_ = m->get_volume() * k.minvol_f;
+    cell_tester::target_volume(*m) = m->get_volume() * k.vt_f;
+    if (k.minvol_f * 2 > k.vt_f) ctx.count("half_of_the_target_below_the_minimum_volume");
+    if (k.vt_f < 1) ctx.count("stretched_mother");
     // reference copy: what the mother looks like after its own compaction
     forced_axis_cell ref_copy(*m);
     const V3 cen = ct::to_v3(m->compute_centroid());
